@@ -88,9 +88,11 @@ var corpus = []corpusCase{
 		}
 		return s, &doc{ops: []*opDef{q("K5", fld("me", fld("color")))}}, "known: enum named like a generated <Op>Data type"
 	}},
-	fixed("repaired: three members deriving one field name (key User, inline fragment on User, fragment named User_)", &doc{
-		ops:   []*opDef{q("K6", fld("node", fld("__typename"), fa("User", "id"), on("User", fld("name")), sp("User_")))},
-		frags: []*fragDef{{name: "User_", cond: "User", sels: []*sel{fld("login")}}}}),
+	fixed("repaired: a member that needs two underscores (keys User and User_, inline fragment on User)", &doc{
+		ops: []*opDef{q("K6", fld("node", fld("__typename"), fa("User", "id"), fa("User_", "id"), on("User", fld("name"))))}}),
+	fixed("repaired: inline fragment on User next to a spread of a fragment named User", &doc{
+		ops:   []*opDef{q("K7", fld("node", fld("__typename"), on("User", fld("name")), sp("User")))},
+		frags: []*fragDef{{name: "User", cond: "User", sels: []*sel{fld("login")}}}}),
 	fixed("invalid: unknown field", &doc{ops: []*opDef{q("I1", fld("node", fld("nope")))}}),
 	fixed("valid but rejected by the generator: fragments on an interface without __typename", &doc{ops: []*opDef{q("I2", fld("node", on("User", fld("name"))))}}),
 }
